@@ -25,8 +25,34 @@ import (
 
 type verifOp struct {
 	Key string
-	Val string // "" = delete
+	Val string // "" = delete, verifEmpty = set with an empty value
 }
+
+const verifEmpty = "<empty>"
+
+
+// verifScan reads the whole committed state back through the store's iterator (key -> value, keys as the test names them)
+func verifScan(t *testing.T, s *Store) map[string]string {
+	out := map[string]string{}
+	prefix := lib.JoinLenPrefix([]byte("k/"))
+	it, e := s.Iterator(prefix)
+	if e != nil {
+		t.Fatal(e)
+	}
+	defer it.Close()
+	for ; it.Valid(); it.Next() {
+		segs := lib.DecodeLengthPrefixed(it.Key())
+		if len(segs) != 2 {
+			out[fmt.Sprintf("?%x", it.Key())] = string(it.Value())
+			continue
+		}
+		out[string(segs[1])] = string(it.Value())
+	}
+	return out
+}
+
+// verifLastScan: the state scanned at the end of the last verifApply
+var verifLastScan map[string]string
 
 func verifApply(t *testing.T, blocks [][]verifOp) ([]byte, map[string]string) {
 	st, err := NewStoreInMemory(lib.NewNullLogger())
@@ -55,7 +81,11 @@ func verifApply(t *testing.T, blocks [][]verifOp) ([]byte, map[string]string) {
 				}
 				delete(final, op.Key)
 			} else {
-				if e := s.Set(k, []byte(op.Val)); e != nil {
+				val := []byte(op.Val)
+				if op.Val == verifEmpty {
+					val = nil // a presence-only key (what the state machine writes for committee / delegate membership)
+				}
+				if e := s.Set(k, val); e != nil {
 					t.Fatal(e)
 				}
 				final[op.Key] = op.Val
@@ -113,6 +143,7 @@ func verifApply(t *testing.T, blocks [][]verifOp) ([]byte, map[string]string) {
 			}
 		}
 	}
+	verifLastScan = verifScan(t, s)
 	return root, final
 }
 
@@ -171,8 +202,12 @@ func TestVerifBoundedC08(t *testing.T) {
 			for i := len(blk); i < n; i++ {
 				k := fmt.Sprintf("key-%03d", rng.Intn(pool))
 				switch r := rng.Intn(10); {
-				case r < 5: // overwrite / insert
-					blk = append(blk, verifOp{k, fmt.Sprintf("v%d-%d", b, rng.Intn(1000))})
+				case r < 5: // overwrite / insert (one in six with an EMPTY value: a presence-only key)
+					v := fmt.Sprintf("v%d-%d", b, rng.Intn(1000))
+					if rng.Intn(6) == 0 {
+						v = verifEmpty
+					}
+					blk = append(blk, verifOp{k, v})
 					present[k] = true
 				case r < 8 && present[k]: // delete
 					blk = append(blk, verifOp{k, ""})
@@ -188,6 +223,7 @@ func TestVerifBoundedC08(t *testing.T) {
 		root, final := verifApply(t, blocks)
 		trace := append([]string(nil), verifTrace...)
 		verifSpec = nil
+		scan := verifLastScan
 		// reference: the final state in ONE block on a fresh store (sorted for reproducibility)
 		var keys []string
 		for k := range final {
@@ -200,6 +236,22 @@ func TestVerifBoundedC08(t *testing.T) {
 		}
 		ref, _ := verifApply(t, [][]verifOp{one})
 		evals++
+		// the root is the commitment of the state AS STORED: what a full scan of the committed state returns is exactly
+		// the key/value set the history ends in (presence-only keys included)
+		scanOK := len(scan) == len(final)
+		for k, v := range final {
+			want := v
+			if v == verifEmpty {
+				want = ""
+			}
+			if got, ok := scan[k]; !ok || got != want {
+				scanOK = false
+			}
+		}
+		if !scanOK {
+			viol++
+			fmt.Printf("BOUNDED-VIOLATION kind=statescan history=%d seed=%d: a scan of the committed state returns %d keys, the history ends in %d keys (or values differ) - the committed root does not commit to the state as stored; trace=%v\n", h, seed, len(scan), len(final), trace)
+		}
 		if len(final) >= 2 && nb >= 2 {
 			nontrivial++
 		}
